@@ -20,10 +20,10 @@ import (
 
 	"github.com/flant/shell-operator/pkg/app"
 	"github.com/flant/shell-operator/pkg/debug"
+	task_metadata "github.com/flant/shell-operator/pkg/hook/task_metadata"
 	kem "github.com/flant/shell-operator/pkg/kube_events_manager"
 	shop "github.com/flant/shell-operator/pkg/shell-operator"
 	"github.com/flant/shell-operator/pkg/task"
-	task_metadata "github.com/flant/shell-operator/pkg/hook/task_metadata"
 	"k8s.io/apimachinery/pkg/apis/meta/v1/unstructured"
 	simrt "verifsimrt"
 )
@@ -50,6 +50,7 @@ type KubeBinding struct {
 
 type SchedBinding struct {
 	Name             string
+	Unnamed          bool // the configuration gives no name (the binding is then called "schedule"; Name holds that)
 	Crontab          string
 	Queue            string
 	Group            string
@@ -136,6 +137,9 @@ func (h *HookSpec) ConfigJSON() string {
 	var ss []any
 	for _, b := range h.Sched {
 		k := map[string]any{"name": b.Name, "crontab": b.Crontab}
+		if b.Unnamed {
+			delete(k, "name")
+		}
 		if b.Queue != "" {
 			k["queue"] = b.Queue
 		}
@@ -202,17 +206,18 @@ type Exec struct {
 	Fail       bool
 	Metrics    string
 	Patch      string
+	PatchObj   string // name of the object the patch writes (opsim runs with patches), for fault attribution
 	Admission  string
 	Conversion string
 	ExitCode   int // real mode: exit status of the process
 	Report     map[string]string
 	ReportCtx  []byte
 	// observations
-	Unattributed bool // oracle-side copy used as a barrier in per-queue sequences (see execsByQueue)
-	QueueSeen  string // queue whose task carries exactly these contexts while the hook runs ("" = not identified)
-	HeadIdx    int    // position of that task in its queue (0 = head)
-	ParseErr   string
-	InputsSeen map[string]int // size of each of the five files at start
+	Unattributed bool   // oracle-side copy used as a barrier in per-queue sequences (see execsByQueue)
+	QueueSeen    string // queue whose task carries exactly these contexts while the hook runs ("" = not identified)
+	HeadIdx      int    // position of that task in its queue (0 = head)
+	ParseErr     string
+	InputsSeen   map[string]int // size of each of the five files at start
 }
 
 func canonJSON(v any) string {
